@@ -22,6 +22,7 @@ Open (kept as `_Statement`, with kernel-checked witnesses in Findings/C02.lean):
 -/
 import ChibiVerif.Lemmas.FpOpLemmas
 import ChibiVerif.Lemmas.FpToy
+import ChibiVerif.Lemmas.FpRoundLemmas
 
 namespace ChibiVerif.Props.C02
 open ChibiVerif.Fp ChibiVerif.Asm ChibiVerif.X86 ChibiVerif.Spec.Fpu ChibiVerif.FpCodegen ChibiVerif.Spec.FpC11
@@ -59,6 +60,9 @@ theorem C02_flags (F : FpuSpec) (op : SrcOp) (c : CmpOp) (hc : SrcOp.cmpOp op = 
     exact ⟨s', h1, by rw [h2, hval]⟩
   · obtain ⟨s', h1, h2⟩ := x87_tail F op.node.1 hcmp (if op.node.2 then r else r.swap) s
     exact ⟨s', h1, by rw [h2, hval]⟩
+
+/-- non-vacuity: all six source operators are covered -/
+example : SrcOp.all.filterMap SrcOp.cmpOp = [.eq, .ne, .lt, .le, .gt, .ge] := rfl
 
 /-- **C02 (flags: truth tests).**  `cmp_zero` leaves the flags of the relation `r` of `e` to zero; its tail
     `sete %al; setnp %dl; and %dl, %al; xor $1, %al` followed by
@@ -113,6 +117,12 @@ theorem C02_compare_f80 (F : FpuSpec) (op : SrcOp) (c : CmpOp) (hc : SrcOp.cmpOp
   rw [hx, ← srcop_node op c hc (F.val80 a) (F.val80 b)]
   cases op.node.2 <;> rfl
 
+/-- non-vacuity: `a >= b` on long doubles: the node is `b <= a`, so `a` is evaluated last and sits in %st(0) -/
+example : ∃ (s : FState) (rest : List (BitVec 80)),
+    s.st = (if SrcOp.ge.node.2 then 7#80 else 9#80) :: (if SrcOp.ge.node.2 then 9#80 else 7#80) :: rest ∧
+    SrcOp.cmpOp .ge = some .ge :=
+  ⟨⟨{ regs := fun _ => 0, mem := fun _ => 0 }, 0, 0, [7#80, 9#80], 0x37f#16⟩, [], rfl, rfl⟩
+
 /-- **C02 (arithmetic: instruction and operand order).**  `a OP b` on float/double computes `F.OPs* a b` with `a` as the
     destination operand (first source), on long double `F.fOP cw a b` with `a` in %st(1): `a − b`, `a ÷ b`, not the reverse. -/
 theorem C02_arith (F : FpuSpec) (op : FOp) (hop : op.isCmp = false) (s : FState) :
@@ -127,6 +137,9 @@ theorem C02_arith (F : FpuSpec) (op : FOp) (hop : op.isCmp = false) (s : FState)
   · obtain ⟨s', h1, h2, h3, h4, _⟩ := arith_f64 F op hop s; exact ⟨s', h1, h2, h3, h4⟩
   · intro l r rest h
     obtain ⟨s', h1, h2, h3, _⟩ := arith_f80 F op hop s l r rest h; exact ⟨s', h1, h2, h3⟩
+
+/-- non-vacuity: the four arithmetic operators are the non-comparisons -/
+example : FOp.all.filter (fun o => !o.isCmp) = [.add, .sub, .mul, .div] := rfl
 
 /-- `xor` with `1 << (n−1)` complements the top bit and leaves every other bit alone -/
 theorem C02_neg_bits (n : Nat) (b : BitVec (n + 1)) (i : Nat) :
@@ -233,6 +246,62 @@ theorem C02_u64f80_machine (F : FpuSpec) (s : FState) (h : (s.x.get .rax).msb = 
   have := (BitVec.msb_eq_decide (s.x.get .rax)).symm.trans h
   simp at this
   split <;> omega
+
+/-- non-vacuity: 2^64 − 1 in %rax has the top bit set -/
+example : ∃ s : FState, (s.x.get .rax).msb = true :=
+  ⟨⟨{ regs := fun _ => 0xffffffffffffffff#64, mem := fun _ => 0 }, 0, 0, [], 0x37f#16⟩, by decide⟩
+
+/-- **C02 (unsigned long → double, all 2^64 values).**  On every FPU that meets the contract and on which adding a double to
+    itself is exact (`hdbl`: the sum of the double nearest to an integer |k| < 2^63 with itself denotes 2·round₅₃(k); true of
+    IEC 60559 addition, there is no overflow), the branchy cell `u64f64` — `test; js`, and for values ≥ 2^63: halve with the
+    lost bit or-ed back in, `cvtsi2sd`, `addsd %xmm0, %xmm0` — leaves a double that denotes round-to-nearest-even of the
+    *unsigned* value to 53 significant bits, which is what the C11 result `F.ofInt64 v` denotes. -/
+theorem C02_u64f64 (F : FpuSpec)
+    (hdbl : ∀ k : Int, k.natAbs < 2 ^ 63 → (F.val64 (F.addsd (F.ofInt64 k) (F.ofInt64 k))).toInt? = some (2 * roundInt 53 k))
+    (s : FState) (v : Int) (hh : Holds (.int .u64) s (.int v)) :
+    ∃ s', Fp.run F (castSeq (.int .u64) .f64) s = some s' ∧
+      (F.val64 s'.xmm0).toInt? = some (roundInt 53 v) ∧ (F.val64 s'.xmm0).toInt? = (F.val64 (F.ofInt64 v)).toInt? ∧
+      s'.st = s.st ∧ s'.cw = s.cw ∧ s'.x.get .rsp = s.x.get .rsp := by
+  have hr : ITy.u64.inRange v := hh.1
+  have hv0 : 0 ≤ v ∧ v < 18446744073709551616 := by
+    simp [ITy.inRange, ITy.min, ITy.max, ITy.signed, ITy.bits] at hr; omega
+  have hspec : (F.val64 (F.ofInt64 v)).toInt? = some (roundInt 53 v) := F.ofInt64_val v (by omega)
+  by_cases hlt : v < 9223372036854775808
+  · obtain ⟨s', hrun, hx, hst, hcw, hrsp⟩ := sel_u64_f64 F s v hh hlt
+    exact ⟨s', hrun, by rw [hx, hspec], by rw [hx], hst, hcw, hrsp⟩
+  · have hnat : ((s.x.get .rax).toNat : Int) = v := by
+      have := hh.2; simp only at this; omega
+    have hmsb : (s.x.get .rax).msb = true := by
+      rw [BitVec.msb_eq_decide]; simp; omega
+    obtain ⟨s', hrun, hx, hst, hcw, hrsp⟩ := eff_u64f64_neg F s hmsb
+    have hn1 : 2 ^ 63 ≤ (s.x.get .rax).toNat := by omega
+    have hn2 : (s.x.get .rax).toNat < 2 ^ 64 := (s.x.get .rax).isLt
+    have hh' := halveSticky_lt _ hn1 hn2
+    have hk : ((s.x.get .rax) >>> 1 ||| (s.x.get .rax) &&& 1#64).toInt = (halveSticky (s.x.get .rax).toNat : Int) := by
+      rw [BitVec.toInt_eq_toNat_cond, halve_bv]
+      split <;> omega
+    have hval : (F.val64 s'.xmm0).toInt? = some (roundInt 53 v) := by
+      rw [hx, F.cvtsi2sd64_spec, hk, hdbl _ (by omega)]
+      have e1 : roundInt 53 (halveSticky (s.x.get .rax).toNat : Int) = (roundNat 53 (halveSticky (s.x.get .rax).toNat) : Int) := by
+        simp [roundInt]; intro h; omega
+      have e2 : roundInt 53 v = (roundNat 53 (s.x.get .rax).toNat : Int) := by
+        rw [← hnat]; simp [roundInt]; intro h; omega
+      rw [e1, e2, round_halve _ hn1 hn2]
+      simp
+    exact ⟨s', hrun, hval, by rw [hval, hspec], hst, hcw, hrsp⟩
+
+/-- non-vacuity: ULONG_MAX in %rax represents the unsigned long 2^64 − 1 -/
+example : ∃ s : FState, Holds (.int .u64) s (.int 18446744073709551615) :=
+  ⟨⟨{ regs := fun _ => 0xffffffffffffffff#64, mem := fun _ => 0 }, 0, 0, [], 0x37f#16⟩,
+    by simp [Holds, RInt, ITy.inRange, ITy.min, ITy.max, ITy.signed, ITy.bits, State.get]⟩
+
+/-- non-vacuity: the toy FPU satisfies the doubling hypothesis -/
+example : ∀ k : Int, k.natAbs < 2 ^ 63 →
+    (Toy.toy.val64 (Toy.toy.addsd (Toy.toy.ofInt64 k) (Toy.toy.ofInt64 k))).toInt? = some (2 * roundInt 53 k) := by
+  intro k hk
+  show (Toy.val64 (if Toy.ofInt64 k = Toy.ofInt64 k then Toy.dbl64 (Toy.ofInt64 k) else Toy.ofInt64 k)).toInt? = _
+  rw [if_pos rfl]
+  exact Toy.dbl64_ofInt k (by omega)
 
 /-! ## floating constants -/
 
